@@ -134,6 +134,15 @@ def _stats(case, Xs, mean, cov):
         if not dev <= tol:
             raise Violation("point_mass_not_constant", "coordinate %d has (numerically) zero population variance %.3g (value %r) but the sample "
                             "deviates by %.3g; %s" % (i, float(cov[i][i]), fm[i], dev, ctx))
+    # i.i.d. rows of a continuous law do not repeat: among n draws of a resolvable coordinate (standard deviation at least
+    # 1e-3 of |mean|, so that the double grid is 1e-13 sd fine) at most a handful of values coincide by rounding
+    for i in live:
+        if math.sqrt(float(fc[i, i])) >= 1e-3 * abs(float(fm[i])):
+            distinct = len(np.unique(Xs[:, i]))
+            if n - distinct > 5 + n * n * 1e-12:
+                raise Violation("rows_repeat", "coordinate %d: only %d distinct values among %d draws of a continuous law - rows are "
+                                "repeated, not independent; %s" % (i, distinct, n, ctx))
+            break
     sm = Xs.mean(axis=0)
     Sc = np.cov(Xs, rowvar=False).reshape(p, p)
     zvar_first = None
@@ -310,7 +319,7 @@ def law_case(draw, shape_only=False):
                 case[nm] = {str(lab[int(t)]): v for t, v in case[nm].items()}
             case.update(W=W, means=means, variances=variances, dtypes={})
             p = pb
-    case["n"] = draw(st.sampled_from([0, 1, 3])) if shape_only else N_LAW
+    case["n"] = draw(st.sampled_from([0, 1, 3])) if shape_only else N_LAW if draw(st.integers(0, 39)) else draw(st.sampled_from([262144, 150001]))
     case["seed"] = draw(st.one_of(st.integers(2, 2 ** 32 - 1), st.integers(2, 2 ** 32 - 1), st.integers(1000, 2 ** 31), st.sampled_from([0, 1])))
     case["proj"] = [[draw(st.integers(-2, 2)) for _ in range(p)] for _ in range(2)]
     case["sub"] = "shape" if shape_only else "law"
